@@ -83,9 +83,10 @@ void showValue(const Case &c, std::ostream &os) { os << to_text(c); }
 int g_cmp_mode = 0;
 pint valcmp(pconstpointer a, pconstpointer b) {
   uintptr_t x = (uintptr_t)a, y = (uintptr_t)b;
-  if (g_cmp_mode == 1) return x == y ? 0 : (x < y ? -1 : 1);
+  // results of any magnitude and either sign for "different" (strcmp / difference style: only zero means equal)
+  if (g_cmp_mode == 1) return x == y ? 0 : (x < y ? -1 - (pint)((y - x) % 1000) : 1 + (pint)((x - y) % 100000));
   // mode 2: equality modulo 16 (several values "equal")
-  return (x & 15) == (y & 15) ? 0 : 1;
+  return (x & 15) == (y & 15) ? 0 : ((x & 15) < (y & 15) ? -7 : 1);
 }
 
 vector<uintptr_t> list_to_vec(PList *l, bool &bad) {
